@@ -129,7 +129,21 @@ VCLAUSE(rotation_3d, 40, 20000, 500000, "the axis is not a coordinate direction,
 	L3 rv = {R[0][0] * v.x + R[0][1] * v.y + R[0][2] * v.z, R[1][0] * v.x + R[1][1] * v.y + R[1][2] * v.z, R[2][0] * v.x + R[2][1] * v.y + R[2][2] * v.z};
 	VCLOSE(c, "perpendicular_turn_cos", (double) dot(rv, v), (double) ca, 32 * EPS, "cos of the angle between v and R v for v perpendicular to the axis");
 	VCLOSE(c, "perpendicular_turn_sin", (double) dot(cross(v, rv), n), (double) sa, 32 * EPS, "(v x R v).n must equal sin(alpha): right-handed sense");
-	(void) nv;
+	// ... and so does the second perpendicular direction n x v (together with n a full right-handed basis): R (n x v) = cos(a) (n x v) - sin(a) v
+	L3 rnv = {R[0][0] * nv.x + R[0][1] * nv.y + R[0][2] * nv.z, R[1][0] * nv.x + R[1][1] * nv.y + R[1][2] * nv.z, R[2][0] * nv.x + R[2][1] * nv.y + R[2][2] * nv.z};
+	VCLOSE(c, "second_perpendicular_cos", (double) dot(rnv, nv), (double) ca, 32 * EPS, "cos of the angle between n x v and R (n x v)");
+	VCLOSE(c, "second_perpendicular_sin", (double) dot(rnv, v), (double) -sa, 32 * EPS, "R (n x v) . v must equal -sin(alpha)");
+	// the default axis of the three-dimensional overload is z
+	if(c.s.chance(0.1))
+	{
+		Matrix Rd, Rz;
+		VMUST_RETURN("Rotation_Matrix with the default axis", Rd = libphysica::Rotation_Matrix(al, 3); Rz = libphysica::Rotation_Matrix(al, 3, Vector({0, 0, 1})));
+		c.cls("default_axis");
+		for(int i = 0; i < 3; i++)
+			for(int j = 0; j < 3; j++)
+				VCLOSE(c, "default_axis_is_z", Rd[i][j], Rz[i][j], 4 * EPS, "Rotation_Matrix(alpha,3) vs Rotation_Matrix(alpha,3,z) at (" << i << "," << j << ")");
+		VCLOSE(c, "default_axis_rotates_about_z", Rd[0][1], (double) -sa, 4 * EPS, "entry (0,1) of the rotation about the default axis must be -sin(alpha)");
+	}
 	for(int i = 0; i < 3; i++)
 		for(int j = 0; j < 3; j++)
 		{
@@ -172,9 +186,10 @@ VCLAUSE(spherical, 40, 20000, 500000, "the axis is not a coordinate direction, o
 	Src& s = c.s;
 	std::string kind;
 	std::vector<double> ax = gen_axis(s, kind);
-	double r  = std::pow(10.0, s.uniform(-3, 3));
-	double th = s.pick({5, 1, 1, 1}) == 0 ? s.uniform(0, M_PI) : (s.coin() ? (s.coin() ? 0.0 : M_PI) : (s.coin() ? std::pow(10.0, s.uniform(-10, -1)) : M_PI - std::pow(10.0, s.uniform(-10, -1))));
-	double ph = s.pick({5, 1}) == 0 ? s.uniform(0, 2 * M_PI) : (double) s.range(0, 3) * (M_PI / 2);
+	// all r > 0: mostly moderate, sometimes near the ends of the double range
+	double r  = s.chance(0.15) ? std::pow(10.0, s.sign() * s.uniform(100, 300)) : std::pow(10.0, s.uniform(-3, 3));
+	double th = s.pick({5, 1, 1, 1}) == 0 ? s.uniform(0, M_PI) : (s.coin() ? (s.pick({1, 1, 1}) == 0 ? 0.0 : (s.coin() ? M_PI : M_PI / 2)) : (s.coin() ? std::pow(10.0, s.uniform(-10, -1)) : M_PI - std::pow(10.0, s.uniform(-10, -1))));
+	double ph = s.pick({5, 1, 1}) == 0 ? s.uniform(0, 2 * M_PI) : (s.coin() ? (double) s.range(0, 3) * (M_PI / 2) : 2 * M_PI * (1 - std::pow(10.0, s.uniform(-15, -3))));
 	double near = std::hypot(ax[0], ax[1]) / std::sqrt(ax[0] * ax[0] + ax[1] * ax[1] + ax[2] * ax[2]);
 	c.cls(kind.c_str());
 	if(kind != "coordinate_axis" || near < 1e-6)
@@ -186,16 +201,20 @@ VCLAUSE(spherical, 40, 20000, 500000, "the axis is not a coordinate direction, o
 	VCHECK(v.Size() == 3 && plain.Size() == 3, "size");
 	for(int i = 0; i < 3; i++)
 		VCHECK(std::isfinite(v[i]), "component " << i << " = " << v[i]);
-	L3 a = {ax[0], ax[1], ax[2]}, w = {v[0], v[1], v[2]}, w2 = {v2[0], v2[1], v2[2]};
+	// in units of r (r^2 leaves the double range at both ends)
+	L3 a = {ax[0], ax[1], ax[2]}, w = {(long double) v[0] / r, (long double) v[1] / r, (long double) v[2] / r}, w2 = {(long double) v2[0] / r, (long double) v2[1] / r, (long double) v2[2] / r};
 	long double al = norm(a);
 	a = {a.x / al, a.y / al, a.z / al};
-	VCLOSE(c, "norm", (double) norm(w), r, 16 * EPS * r, "|v| must be r");
+	VCLOSE(c, "norm", (double) norm(w), 1.0, 16 * EPS, "|v|/r must be 1");
 	// polar angle from the axis: atan2(|v x a|, v.a)
 	long double pol = atan2l(norm(cross(w, a)), dot(w, a));
 	VCLOSE(c, "polar_angle", (double) pol, th, 64 * EPS, "polar angle of v from the axis (axis kind " << kind << ")");
 	// increasing phi moves v around the axis in the right-handed sense: (v(phi) x v(phi+d)).a = r^2 sin^2(theta) sin(d)
-	long double hand = dot(cross(w, w2), a), expect = (long double) r * r * sinl((long double) th) * sinl((long double) th) * sinl((long double) dph);
-	VCLOSE(c, "right_handed_azimuth", (double) hand, (double) expect, 256 * EPS * r * r, "(v(phi) x v(phi+dphi)).axis vs r^2 sin^2(theta) sin(dphi): right-handed sense");
+	// (tolerance: each vector carries eps*r of rounding, which enters the triple product multiplied by the perpendicular part r sin(theta))
+	// (w x w2).a evaluated as (w2 - w).(a x w): the direct form cancels catastrophically when v is nearly parallel to the axis
+	L3 dw = {w2.x - w.x, w2.y - w.y, w2.z - w.z};
+	long double hand = dot(dw, cross(a, w)), sth = fabsl(sinl((long double) th)), expect = sth * sth * sinl((long double) dph);
+	VCLOSE(c, "right_handed_azimuth", (double) hand, (double) expect, 256 * EPS * (double) sth + 64 * EPS * EPS, "(v(phi) x v(phi+dphi)).axis / r^2 vs sin^2(theta) sin(dphi): right-handed sense");
 	// overload without axis: the textbook formula, to 2 ulp per component (relative to r)
 	long double e[3] = {(long double) r * sinl(th) * cosl(ph), (long double) r * sinl(th) * sinl(ph), (long double) r * cosl(th)};
 	for(int i = 0; i < 3; i++)
